@@ -156,6 +156,10 @@ class Engine(object):
             return str_from_chars([self.fresh("%s_c%d" % (name, k), IntS) for k in range(n)])
         if kind == "seqstr":
             return SeqStr(self.fresh(name, z3.SeqSort(IntS)))
+        if kind == "dt":
+            return Opaque("dt", (self.fresh(name + "_us", IntS),))
+        if kind == "td":
+            return Opaque("td", (self.fresh(name + "_us", IntS),))
         raise SpecError("unknown kind %r" % kind)
 
     def sort_of_kind(self, kind):
@@ -168,6 +172,8 @@ class Engine(object):
             return BoolS
         if kind.startswith("ref:") or kind.startswith("slist:") or kind == "ref":
             return RefS
+        if kind in ("dt", "td"):
+            return IntS
         raise SpecError("no SMT sort for kind %r" % kind)
 
     def wrap(self, term, kind):
@@ -181,6 +187,8 @@ class Engine(object):
             return Ref(term, kind[4:])
         if kind.startswith("slist:"):
             return SList(term, kind[6:])
+        if kind in ("dt", "td"):
+            return Opaque(kind, (term,))
         raise SpecError("cannot wrap kind %r" % kind)
 
     def unwrap(self, v, kind, P=None):
@@ -203,6 +211,9 @@ class Engine(object):
                 return NULL
             if isinstance(v, (Ref, SList)):
                 return v.t
+        elif kind in ("dt", "td"):
+            if isinstance(v, Opaque) and v.tag == kind:
+                return v.payload[0]
         raise Unsupported("value %r does not fit kind %s" % (v, kind))
 
     def note(self, s):
@@ -485,8 +496,20 @@ class Engine(object):
         res = self.ev(node, P, ctx)
         if len(res) != 1:
             raise Unsupported("module constant %s.%s forks" % (mod, name))
-        P.ghost[key] = res[0][1]
-        return res[0][1]
+        val = res[0][1]
+        P.ghost[key] = val
+        # later module-level statements of the form  NAME[key] = value  populate the table (d3_time[...] = ...)
+        if isinstance(val, Handle) and val.kind == "dict":
+            for st in self.repo.mods[mod].body:
+                if (isinstance(st, ast.Assign) and len(st.targets) == 1 and isinstance(st.targets[0], ast.Subscript)
+                        and isinstance(st.targets[0].value, ast.Name) and st.targets[0].value.id == name):
+                    r2 = self.evs([st.targets[0].slice, st.value], P, ctx)
+                    if len(r2) != 1:
+                        raise Unsupported("module table %s.%s forks" % (mod, name))
+                    d = dict(P.get(val))
+                    d[self.dict_key(r2[0][1][0])] = r2[0][1][1]
+                    P.put(val, d)
+        return val
 
     # ------------------------------------------------------------------ truthiness
     def truth(self, v, P):
@@ -974,6 +997,10 @@ class Engine(object):
                     f = Func(st, m, (), attr, cls=o.name, qual="%s.%s.%s" % (m, o.name, attr))
                     return [(P, Bound(f, o) if iscm else f)]
             raise Unsupported("class attribute %s.%s" % (o.name, attr))
+        if isinstance(o, Opaque) and o.tag in ("dt", "td"):
+            v = self.dt_attr(self, P, ctx, o, attr)
+            if v is not None:
+                return [(P, v)]
         if isinstance(o, (Handle, Str, SeqStr, SList, Tup, Opaque)):
             return [(P, Builtin("method." + attr, o))]
         raise Unsupported("attribute %s of %r" % (attr, o))
@@ -1437,6 +1464,7 @@ class Engine(object):
                     self.assume_allocated(Q, result.t)
                     if rk.startswith("slist:"):
                         Q.assume(result.t != NULL)
+                        Q.assume(self.l_len(Q, result) >= 0)
             d = dict(Q.get(fr))
             d["result"] = result
             Q.put(fr, d)
@@ -1584,6 +1612,12 @@ class Engine(object):
         return [(P, ("next",))]
 
     def st_Assign(self, st, P, ctx, nl):
+        con = self.contracts.get(ctx.fname)
+        if (con and con.get("slist_locals") and len(st.targets) == 1 and isinstance(st.targets[0], ast.Name)
+                and st.targets[0].id in con["slist_locals"] and isinstance(st.value, ast.List) and not st.value.elts):
+            lst = self.new_slist(P, con["slist_locals"][st.targets[0].id][6:], st.targets[0].id)
+            self.assign_name(P, ctx, st.targets[0].id, lst, nl)
+            return [(P, ("next",))]
         out = []
         for (p, v) in self.ev(st.value, P, ctx):
             ps = [p]
@@ -1911,11 +1945,14 @@ class Engine(object):
             r = SList(self.fresh(name, RefS), cur.ekind)
             P.assume(r.t != NULL)
             self.assume_allocated(P, r.t)
+            P.assume(self.l_len(P, r) >= 0)
             return r
         if isinstance(cur, SeqStr):
             return SeqStr(self.fresh(name, z3.SeqSort(IntS)))
         if isinstance(cur, Str):
             return SeqStr(self.fresh(name, z3.SeqSort(IntS)))
+        if isinstance(cur, Opaque) and cur.tag in ("dt", "td"):
+            return Opaque(cur.tag, (self.fresh(name + "_us", IntS),))
         if isinstance(cur, (Func, ClassV, Builtin, ModuleV)):
             return cur
         raise Unsupported("cannot havoc local %s of shape %r (declare it in the loop spec 'locals')" % (name, cur))
